@@ -186,7 +186,14 @@ func runC15(c *Ctx) {
 	}
 	keyedByOid := func(fn *ssa.Function) {
 		for _, ci := range CallsIn(fn, "(*tq.TransferQueue).canRetryObject", "(*tq.TransferQueue).canRetryObjectLater") {
+			// the key is the string argument (a refactor may have put other parameters in front of it)
 			a := ci.Common().Args[1]
+			for _, cand := range ci.Common().Args[1:] {
+				if short(cand.Type().String()) == "string" {
+					a = cand
+					break
+				}
+			}
 			_, f, _, ok := FieldOf(a)
 			c.Check(ok && f == "Oid", "R2", "budget-keyed-by-oid:"+FnName(fn)+":"+describeValue(p, a), p.InstrPos(ci), "retry budget looked up under the object's Oid", "the retry budget is looked up under "+describeValue(p, a)+" instead of the object's Oid: the counter (keyed by Oid) is never found, so the object is retried without bound")
 		}
